@@ -433,7 +433,15 @@ def main():
     all_sums = []
     samples = []
     per_run = []
+    informational = []
     for run, r in results:
+        if run.get("info"):
+            # informational configuration (e.g. another prime set): reported in the evidence, never part of the verdict
+            keys = sorted(set([k for (_, k, _, _) in r.viol] + [k for (_, k, _, _) in r.crashes]))
+            m = merge_sums(r.sums)
+            informational.append(dict(configuration=run.get("defs", "") or run.get("tag", ""), evaluations=m["evaluations"],
+                                      violation_keys=keys[:40], violation_classes=len(keys), notes=r.inconclusive[:3]))
+            continue
         tsan = tsan_dedupe(r.tsan_reports)
         # tsan reports are attributed by key only (the workload records the entry points in the report stacks)
         for key, block in tsan.items():
@@ -490,6 +498,7 @@ def main():
         distinct_sets=total["sets"],
         known_findings_seen=known_seen,
         not_observed=inconclusive,
+        informational_configurations=informational,
         exhaustive=False,
     )
     if prop == "C07":
